@@ -129,7 +129,7 @@ def run_pool(eng_name: str, seed: int, tier: str, chunks, nproc: int, wall: floa
     skipped = 0
     while pending or live:
         while pending and len(live) < nproc:
-            if time.monotonic() - t0 > wall:
+            if time.monotonic() - t0 > wall or len(merged.violations) >= 150:
                 skipped = len(pending)
                 pending.clear()
                 break
